@@ -38,12 +38,19 @@ HasField(fs, name) == \E i \in DOMAIN fs : fs[i][1] = name
 DropAt(s, i) == [j \in 1..(Len(s) - 1) |-> IF j < i THEN s[j] ELSE s[j + 1]]
 Swap(s, i) == [j \in DOMAIN s |-> IF j = i THEN s[i + 1] ELSE IF j = i + 1 THEN s[i] ELSE s[j]]
 
+\* mutations and "..." are applied to structs without bit-fields and without fields of a nested
+\* anonymous type (their "$N" numbering follows the text of the cdef)
+PlainFields(ev, key) ==
+  \A f \in DOMAIN ev.su[key].fields :
+     /\ ev.su[key].fields[f][3] = Unk
+     /\ ~(IsSU(ev.su[key].fields[f][2]) /\ ~Queryable(ev.su[key].fields[f][2]))
+
 \* how = "type": field i gets primitive type arg (of another size); "drop": field i disappears from
 \* the cdef; "swap": fields i and i+1 change places
 MutateFieldG(ev, key, how, i, arg) ==
   /\ key \in DOMAIN ev.su /\ ev.su[key].complete /\ SubSeq(key[2], 1, 1) # "$"
   /\ i \in DOMAIN ev.su[key].fields
-  /\ \A f \in DOMAIN ev.su[key].fields : ev.su[key].fields[f][3] = Unk            \* no bit-fields
+  /\ PlainFields(ev, key)
   /\ CASE how = "type" -> /\ ev.su[key].fields[i][2][1] = "prim" /\ arg \in KnownPrims
                           /\ PrimSize[arg] # PrimSize[ev.su[key].fields[i][2][2]]
        [] how = "drop" -> Len(ev.su[key].fields) >= 2
@@ -66,7 +73,7 @@ MutateEnumeratorE(ev, tag, i, val) == [ev EXCEPT !.en = [@ EXCEPT ![tag].vals = 
 AddDotsG(ev, fl, item) ==
   /\ item \notin fl
   /\ \/ item[1] = "su" /\ item[2] \in DOMAIN ev.su /\ ev.su[item[2]].complete /\ SubSeq(item[2][2], 1, 1) # "$"
-        /\ \A f \in DOMAIN ev.su[item[2]].fields : ev.su[item[2]].fields[f][3] = Unk
+        /\ PlainFields(ev, item[2])
      \/ item[1] = "k" /\ item[2] \in DOMAIN ev.kc
 
 (* ------------------------------------------------------------------ layouts in both worlds *)
